@@ -20,7 +20,7 @@ ID = 'C12'
 LEVEL = 'exploration'
 TECHNIQUE = 'runtime monitor: convergence reference model vs behaviourally observed installed set at quiescence, gated + yield-injected schedules'
 RULE = ('poll scripts of 2-10 responses (update with 0-4 tracepoints / no-change / error status / update containing '
-        'uninterpretable tracepoints, service time stamps that need not move forward) interleaved with register / unregister calls from other threads (one call at a time); real '
+        'uninterpretable tracepoints / an answer of an unknown response type, service time stamps that need not move forward) interleaved with register / unregister calls from other threads (one call at a time); real '
         'TaskHandler (2 workers) applies the updates; a seeded subset of updates is parked inside a listener until a '
         'later update has been applied (or 0.25 s passed); LINE yields in deep/config + deep/task; separately the real '
         'RepeatedTimer is run against failing polls; non-trivial = two updates were in flight together or a '
@@ -29,7 +29,7 @@ ASSUMPTIONS = ['polls are issued by one thread (as the agent\'s single timer doe
                '"polling continues" is decided as bounded progress: timer thread alive and a further request within '
                '100 intervals; alive but silent is inconclusive']
 REQUIRE = {'scripts_checked': 250, 'updates_applied': 800, 'gates_engaged': 40, 'inflight_overlaps': 100, 'hash_checks': 800,
-           'failed_polls': 150, 'timer_sessions': 6, 'restart_sessions': 3,
+           'failed_polls': 70, 'unintelligible_answers': 30, 'timer_sessions': 6, 'restart_sessions': 3,
            'preempt_points': 80, 'preempt_overtakes': 8}
 
 HOST = '''"""c12 probe"""
@@ -144,7 +144,8 @@ def case_script(seed, out, spec, wd):
         elif c <= 6:
             script.append(('nochange',))
         elif c == 7:
-            script.append(('error',))
+            # the poll fails, or is answered with a response type this client does not know: nothing changes
+            script.append(('error',) if r.chance(0.5) else ('unknown_type',))
         elif c == 8:
             script.append(('register', r.pick(lines)))
         else:
@@ -165,6 +166,12 @@ def case_script(seed, out, spec, wd):
         if step[0] == 'nochange':
             return PollResponse(ts_nanos=request.ts_nanos, current_hash=request.current_hash,
                                 response_type=ResponseType.NO_CHANGE)
+        if step[0] == 'unknown_type':
+            return PollResponse(ts_nanos=request.ts_nanos, current_hash='hash-of-an-unintelligible-answer',
+                                response=[TracePointConfig(ID='from-unintelligible-answer', path=base,
+                                                           line_number=lines[0],
+                                                           args={'fire_count': '-1', 'fire_period': '0'})],
+                                response_type=7)
         _, hsh, tps, bad, parked = step
         protos = [TracePointConfig(ID=i, path=base, line_number=ln, args={'fire_count': '-1', 'fire_period': '0'})
                   for i, ln in tps]
@@ -214,7 +221,7 @@ def case_script(seed, out, spec, wd):
     with inject.LineInjector(match, yld) as inj:
         side = []
         for step in script:
-            if step[0] in ('update', 'nochange', 'error'):
+            if step[0] in ('update', 'nochange', 'error', 'unknown_type'):
                 queue.append(step)
                 if step[0] == 'update' and step[4]:
                     park.add(step[1])
@@ -299,7 +306,7 @@ def case_script(seed, out, spec, wd):
     # every hash ever reported is the initial one or one the service had sent before
     known = {None, ''}
     idx = 0
-    polls = [s for s in script if s[0] in ('update', 'nochange', 'error')] + [('nochange',)]
+    polls = [s for s in script if s[0] in ('update', 'nochange', 'error', 'unknown_type')] + [('nochange',)]
     for sent, step in zip(sent_hashes, polls):
         if (sent or None) not in known:
             out.violation('convergence:reported-hash', 'poll reported hash %r which the service never sent' % (sent,),
@@ -311,6 +318,7 @@ def case_script(seed, out, spec, wd):
     out.count('scripts_checked')
     out.count('updates_applied', len(applied))
     out.count('failed_polls', failed_polls)
+    out.count('unintelligible_answers', sum(1 for s_ in script if s_[0] == 'unknown_type'))
     out.count('yield_points', events)
     out.count('inflight_overlaps', inflight_overlap[0])
     submitted = [s[1] for s in script if s[0] == 'update']
